@@ -186,4 +186,4 @@ def check_case(case):
 
 def run(tier="quick", seed=0):
     return common.run("bounded.C10", cases(tier, seed), bound="3 candidates x <=3 ballots x 4 seeds (quick); <=5 x 5 random (thorough)",
-                      rule=RULE, budget_s=170 if tier == "quick" else 1500)
+                      rule=RULE, budget_s=600 if tier == "quick" else 1500)
